@@ -751,7 +751,7 @@ def _gen_helpers(tree):
         if cls is None and not name.startswith("_"):
             return
         a = fn.args
-        if a.vararg or a.kwarg or a.kwonlyargs or a.defaults:
+        if a.vararg or a.kwarg or a.kwonlyargs or not all(isinstance(d, ast.Constant) for d in a.defaults):
             return
         kind = "method"
         for d in fn.decorator_list:
@@ -802,6 +802,15 @@ class _Rename(ast.NodeTransformer):
 _gen_counter = [0]
 
 
+def _pad_defaults(fn, params, args):
+    """positional arguments completed with the helper's (constant) defaults"""
+    d = fn.args.defaults
+    missing = len(params) - len(args)
+    if 0 < missing <= len(d):
+        return list(args) + [copy.deepcopy(x) for x in d[len(d) - missing:]]
+    return args
+
+
 def inline_generators(tree, allh, used):
     """allh: collect_gen_helpers(...) of the whole program; used: set of helper names inlined (updated)"""
     if not allh:
@@ -831,6 +840,7 @@ def inline_generators(tree, allh, used):
         mapping = {}
         if kind == "method":
             mapping[params.pop(0)] = recv
+        args = _pad_defaults(fn, params, args)
         if len(params) != len(args):
             return None
         _gen_counter[0] += 1
@@ -901,6 +911,7 @@ def inline_generators(tree, allh, used):
         mapping = {}
         if kind == "method":
             mapping[params.pop(0)] = recv
+        args = _pad_defaults(fn, params, args)
         if len(params) != len(args):
             return None
         for p, a in zip(params, args):
@@ -1711,6 +1722,87 @@ def inline_adjacent_temporaries(fn):
 
 
 # ---------------------------------------------------------------------------
+def lift_closure_factories(tree):
+    """`def _f(a, b): def g(x): BODY; return g` with call sites `_f(u, v)` (u, v plain names / constants)
+        ->  `def _f__lifted(x, a, b): BODY`  and  `lambda x: _f__lifted(x, u, v)` at the call sites.
+    The closure object and the lambda compute the same function of x as long as u, v are not rebound between the
+    creation and the calls; call sites whose arguments are names stored more than once in their function are left
+    alone (and then the factory stays).  Module-level private factories only.  -> names lifted"""
+    done = []
+    for fn in [s_ for s_ in tree.body if isinstance(s_, ast.FunctionDef)]:
+        if not fn.name.startswith("_") or fn.name.endswith("__") or fn.decorator_list:
+            continue
+        a = fn.args
+        if a.vararg or a.kwarg or a.kwonlyargs or a.defaults or a.posonlyargs:
+            continue
+        body = [s_ for s_ in fn.body if not (isinstance(s_, ast.Expr) and isinstance(s_.value, ast.Constant))]
+        if len(body) != 2 or not isinstance(body[0], ast.FunctionDef) or not isinstance(body[1], ast.Return) \
+                or not (isinstance(body[1].value, ast.Name) and body[1].value.id == body[0].name):
+            continue
+        inner = body[0]
+        ia = inner.args
+        if ia.vararg or ia.kwarg or ia.kwonlyargs or ia.defaults or ia.posonlyargs or inner.decorator_list:
+            continue
+        outer_params = [x.arg for x in a.args]
+        inner_params = [x.arg for x in ia.args]
+        if set(outer_params) & set(inner_params):
+            continue
+        stored = {n.id for n in ast.walk(inner) if isinstance(n, ast.Name) and isinstance(n.ctx, (ast.Store, ast.Del))}
+        if stored & set(outer_params) or any(isinstance(n, (ast.Nonlocal, ast.Global, ast.Yield, ast.YieldFrom)) for n in ast.walk(inner)):
+            continue
+        if any(isinstance(n, ast.Name) and n.id in (inner.name, fn.name) for b_ in inner.body for n in ast.walk(b_)):
+            continue
+        # every reference to the factory is a direct call with simple, stable arguments
+        sites, ok = [], True
+        inside = {id(x) for x in ast.walk(fn)}
+        for holder in ast.walk(tree):
+            if not isinstance(holder, (ast.FunctionDef, ast.Lambda)) or id(holder) in inside:
+                continue
+            multi = {}
+            for n in ast.walk(holder):
+                if isinstance(n, ast.Name) and isinstance(n.ctx, ast.Store):
+                    multi[n.id] = multi.get(n.id, 0) + 1
+            for n in ast.walk(holder):
+                if isinstance(n, ast.Call) and isinstance(n.func, ast.Name) and n.func.id == fn.name:
+                    if n.keywords or len(n.args) != len(outer_params):
+                        ok = False
+                    for x in n.args:
+                        if isinstance(x, ast.Constant):
+                            continue
+                        if isinstance(x, ast.Name) and multi.get(x.id, 0) == 0:
+                            continue  # a parameter / free name that the function never rebinds
+                        ok = False
+                    sites.append(n)
+        refs = [n for n in ast.walk(tree) if isinstance(n, ast.Name) and n.id == fn.name and id(n) not in inside]
+        if not ok or not sites or len(refs) != len({id(s_.func) for s_ in sites}):
+            continue
+        new_name = fn.name + "__lifted"
+        lifted = ast.FunctionDef(name=new_name, args=ast.arguments(posonlyargs=[], args=[ast.arg(arg=x) for x in inner_params + outer_params],
+                                                                     vararg=None, kwonlyargs=[], kw_defaults=[], kwarg=None, defaults=[]),
+                                 body=inner.body, decorator_list=[], returns=None, type_comment=None)
+        try:
+            lifted.type_params = []
+        except Exception:
+            pass
+        ast.copy_location(lifted, fn)
+        tree.body[tree.body.index(fn)] = lifted
+
+        class R(ast.NodeTransformer):
+            def visit_Call(self, n):
+                self.generic_visit(n)
+                if any(n is s_ for s_ in sites):
+                    lam = ast.Lambda(args=ast.arguments(posonlyargs=[], args=[ast.arg(arg=x) for x in inner_params], vararg=None, kwonlyargs=[],
+                                                        kw_defaults=[], kwarg=None, defaults=[]),
+                                     body=ast.Call(func=ast.Name(id=new_name, ctx=ast.Load()),
+                                                   args=[ast.Name(id=x, ctx=ast.Load()) for x in inner_params] + list(n.args), keywords=[]))
+                    return ast.copy_location(lam, n)
+                return n
+        R().visit(tree)
+        ast.fix_missing_locations(tree)
+        done.append(fn.name)
+    return done
+
+
 def normalize_module(tree, property_names=None):
     """in place; -> dict of counters (generator helpers are inlined program-wide before this); property_names: attribute
     names that are properties of the package (None: attribute reads are never moved)"""
